@@ -136,3 +136,14 @@ reg('C17', 'bounds', 'rule_index_guarded', ('dev', 'release'))
 reg('C04', 'streams', 'rule_forward_all')
 reg('C06', 'streams', 'rule_forward_all')
 reg('C13', 'streams', 'rule_forward_all')
+reg('C06', 'streams', 'rule_sticky')         # "text a child attributes to nothing stays unattributed" needs the pending close
+reg('C13', 'streams', 'rule_idx')            # wrappers change nothing: name / source indices are translated, not forwarded raw
+reg('C20', 'eqhash', 'rule_hash_in_eq')      # a == that ignores what the hash feeds makes equal values hash differently
+reg('C12', 'codec', 'rule_enc_dedup')
+reg('C08', 'codec', 'rule_enc_dedup')        # a map that goes through an enclosing source's map() is re-encoded
+reg('C10', 'codec', 'rule_enc_dedup')        # the cached map is produced by this encoder (the tee in stream_chunks)
+reg('C09', 'streams', 'rule_ctor_verbatim')
+reg('C17', 'bounds', 'rule_encoder_total', ('dev', 'release'))
+reg('C12', 'bounds', 'rule_encoder_total')   # an encoder that panics on a decodable value does not round-trip it
+reg('C12', 'codec', 'rule_enc_omit')
+reg('C04', 'codec', 'rule_enc_omit')         # columns=false attribution is what the line-only encoder writes
